@@ -429,6 +429,8 @@ func buildValSpecs() []valSpec {
 	errv("error:nasty-text", func() error { return errors.New("bad \"thing\"\nsecond line \x1b[31m") })
 	errv("error:joined", func() error { return errors.Join(errors.New("e1"), errors.New("e2")) })
 	errv("error:v3-with-stack", func() error { return errorsv3.New("v3 error") })
+	// an errors.v3 error whose recorded stack is empty (a skip count beyond the bottom of the stack)
+	errv("error:v3-empty-stack", func() error { return errorsv3.New("v3 error without frames").WithSkip(100).(error) })
 	add(valSpec{Name: "stringer", Kind: "stringer", Mk: func() any { return stringerV{"str \"x\"\n"} },
 		JSON: func(j any) string { return jsonStringIs(j, "str \"x\"\n") },
 		Logfmt: func(p logfmt.Pair) string {
